@@ -3,6 +3,7 @@ package props
 import (
 	"fmt"
 	"go/token"
+	"go/types"
 	"strings"
 
 	"verif/third_party/xtools/go/ssa"
@@ -65,6 +66,9 @@ func c11Rules(p *core.Prog, r *core.Run) {
 	r.Check("C11.GRAMMAR", "parseConfig:grammar", pt == wantP, p.Pos(parse.Pos()), "parseConfig reads: %s (expected %s); the extensions that follow inside the length-prefixed contents are skipped with them", pt, wantP)
 	lt := normTokens(builderTokens(p, list, newBuilder(list), nil, 0))
 	okL := strings.HasPrefix(lt, "p16{ loop{ bytes:") && strings.HasSuffix(lt, "} }") && strings.Count(lt, "bytes:") == 1 && !strings.Contains(lt, "u16:")
+	// each config goes in as it was given: the element of the argument itself,
+	// not a part of it and not a re-encoding
+	r.Check("C11.GRAMMAR", "ConfigList:element-as-given", lt == "p16{ loop{ bytes:$p0[] } }", p.Pos(list.Pos()), "the list's entries are the caller's configs themselves: %s", lt)
 	r.Check("C11.GRAMMAR", "ConfigList:grammar", okL, p.Pos(list.Pos()), "ConfigList emits ECHConfig<..2^16-1> as a builder length-prefixed block (overflow is an error, not a wrapped length): %s", lt)
 	// what the encoders return is what their builder holds: no way out hands
 	// back something else (nothing, for an empty list, say) as a success
@@ -99,6 +103,9 @@ func c11Rules(p *core.Prog, r *core.Run) {
 	plt := normTokens(parserTokens(p, plist, root))
 	r.Check("C11.GRAMMAR", "ParseConfigList:grammar", plt == "p16{ loop{ call:parseConfig(_) } }", p.Pos(plist.Pos()), "ParseConfigList reads: %s (a uint16-prefixed sequence of configs, each parsed by parseConfig on the child cursor)", plt)
 	r.Tables["config_tokens"] = map[string]string{"Bytes": bt, "parseConfig": pt, "ConfigList": lt, "ParseConfigList": plt}
+	// the cipher-suite vector is read to its end
+	vectorLoopsRunDry(p, r, parse, "C11.SAFE.loops")
+	vectorLoopsRunDry(p, r, plist, "C11.SAFE.loops")
 	// every parsed config starts from the zero ConfigSpec: the struct the parser
 	// appends cipher suites to is allocated per parse (inside parseConfig, or by the
 	// caller in the same loop iteration as the call), never carried over from the
@@ -113,6 +120,18 @@ func c11Rules(p *core.Prog, r *core.Run) {
 			fa, ok := st.Addr.(*ssa.FieldAddr)
 			if !ok {
 				continue
+			}
+			// a list field of the result starts empty and owns its storage: what
+			// is put there is nil or an append onto the field itself, never a
+			// slice handed in from outside (one array behind every config of a list)
+			if _, isSlice := fieldVar(fa).Type().Underlying().(*types.Slice); isSlice && fieldVar(fa).Name() == "CipherSuites" {
+				v := p.X(st.Val)
+				selfAppend := v.Op == "call" && v.Name == "append" && len(v.Args) >= 1 && v.Args[0].Op == "field" && v.Args[0].Obj == fieldVar(fa)
+				okInit := isNilConst(st.Val) || selfAppend || v.Op == "new" && v.Name != ""
+				if !selfAppend && v.Any(func(e *core.Expr) bool { return e.Op == "param" && e.Name != "p0" }) {
+					okInit = false
+				}
+				r.Check("C11.SAFE.fresh", "parseConfig:suites-storage@"+p.InstrPos(st), okInit, p.InstrPos(st), "the cipher-suite list of a parsed config is nil or grown from itself, not backed by storage supplied from outside: %s", short(v))
 			}
 			c, ok := st.Val.(*ssa.Call)
 			if !ok {
